@@ -245,10 +245,22 @@ class FineGeo:
 
     def proj(self, K):
         c = tuple(to_int(K.K[i] * self.U[i], "K*U") % self.U[i] for i in range(3))
-        lev = int(K.refinement_level)
+        lev = self.level_of(K)
         if lev > self.L:
             raise NonIntegral(f"refinement level {lev} beyond the {self.L} levels of the geometry")
         return (c, lev, to_int(K.factor * self.WOne, "factor*WOne"))
+
+    def level_of(self, K):
+        """refinement level of a K-point (adapter: the attribute refinement_level, else from the size dK of its cell)"""
+        try:
+            return int(K.refinement_level)
+        except AttributeError:
+            pass
+        for i in range(3):
+            if self.nd[i] > 1:
+                x = np.log(1.0 / (self.n[i] * float(K.dK[i]))) / np.log(self.nd[i])
+                return to_int(x, "refinement level from dK", 1e-6)
+        return 0
 
     def proj_list(self, kl):
         return [self.proj(K) for K in kl]
